@@ -42,11 +42,11 @@ var propTable = map[string]PropInfo{
 	"C02": {Engine: "history", Level: "exploration", QuickS: 20, ThorS: 420,
 		Rule: "one evaluation = one seeded history with clones, cursors, forks, persists and reloads sharing one disk and one cache; after every op every captured version is re-observed and compared with its observation at capture, and every cached node object is re-fingerprinted; non-trivial = at least one captured version was re-observed after a later op; distinct = hash of (config, op sequence)"},
 	"C03": {Engine: "history", Level: "exploration", QuickS: 20, ThorS: 420,
-		Rule: "one evaluation = one seeded history whose MakeRoot calls run under the quiescence scheduler: every Store is parked and released one at a time in a chooser-picked order with chooser-picked outcomes (ok/fail/ack-lost/stall); non-trivial = a flush with >=2 Stores in flight that completed out of name order or had an injected failure; distinct = hash of (config, op sequence) "},
+		Rule: "one evaluation = one seeded history whose MakeRoot calls run under the quiescence scheduler: every Store is parked and released one at a time in a chooser-picked order with chooser-picked outcomes (ok/fail/ack-lost/stall); also: the caller's context cancelled after N completed Stores, two trees holding the same new nodes persisted as two goroutines (each root judged at the quiescent point right after its call returned), interrupted replications rebuilt on the other store, two stores sharing one cache under store names that differ in the port or a trailing slash only; non-trivial = a flush with >=2 Stores in flight that completed out of name order or had an injected failure; distinct = hash of (config, op sequence) "},
 	"C04": {Engine: "history", Level: "exploration", QuickS: 20, ThorS: 420,
 		Rule: "one evaluation = one seeded history; at every MakeRoot the persisted graph is decoded independently and compared with the reference MST (height rule, shape), and 'canon' ops rebuild the same contents through a different history (shuffled inserts, extra keys deleted, mid-way reload, fresh store) and compare roots; non-trivial = at least one such comparison ran; distinct = hash of (config, op sequence)"},
 	"C05": {Engine: "history", Level: "exploration", QuickS: 20, ThorS: 420,
-		Rule: "one evaluation = one seeded history with persist/reload/restart cycles (direct, via JSON of the Root, after restart); non-trivial = at least one reload or persisted-root read-back was compared; distinct = hash of (config, op sequence)"},
+		Rule: "one evaluation = one seeded history with persist/reload/restart cycles (direct, via JSON of the Root, after restart), store faults in one persist out of six, swarm of key/value types (incl. typed nil pointers, 1 MiB values, numbers in interface fields), marshalers (JSON, gob, a second custom one, one-sided callbacks), example-type configurations, branch factors 2-16 and threshold sizes bf^k+1; non-trivial = at least one reload or persisted-root read-back was compared; distinct = hash of (config, op sequence)"},
 	"C06": {Engine: "history", Level: "exploration", QuickS: 20, ThorS: 420,
 		Rule: "one evaluation = one seeded history with diff ops over ordered pairs of live handles (trees, clones, reloaded roots, nil old); each diff is compared (callback and cursor interface) with the model difference; non-trivial = at least one diff compared; distinct = hash of (config, op sequence)"},
 	"C07": {Engine: "history", Level: "exploration", QuickS: 20, ThorS: 420,
@@ -60,9 +60,9 @@ var propTable = map[string]PropInfo{
 	"C13": {Engine: "history", Level: "exploration", QuickS: 20, ThorS: 420,
 		Rule: "one evaluation = one seeded history; each MakeRoot's Store set is compared with reach(returned root), with the base version's decoded node key ranges and with the per-key write budget; IsDirty judged after every op; non-trivial = at least one judgement; distinct = hash of (config, op sequence)"},
 	"C15": {Engine: "history", Level: "exploration", QuickS: 20, ThorS: 420,
-		Rule: "one evaluation = one seeded history; for ordered pairs of persisted versions loaded cache-less, distinct names Loaded during DiffLinks / DiffIter / NextEntry loop are compared with 2*D+2 (D from observed reach sets); non-trivial = at least one pair judged; distinct = hash of (config, op sequence)"},
+		Rule: "one evaluation = one seeded history; for ordered pairs of persisted versions, distinct names Loaded during DiffLinks / DiffIter / NextEntry loop are compared with 2*D+2 (D from observed reach sets): cache-less, after a Clone of a handle, through two Persist values over one store, with the new side on a replica store and cold caches on both sides, and with one or both sides through the shared cache; non-trivial = at least one pair judged; distinct = hash of (config, op sequence)"},
 	"C16": {Engine: "history", Level: "exploration", QuickS: 20, ThorS: 420,
-		Rule: "one evaluation = one seeded history; probe ops open a persisted version cache-less and count distinct names Loaded by LoadMast/Clone/Get/Insert/Delete against the height bounds; non-trivial = at least one probe judged; distinct = hash of (config, op sequence)"},
+		Rule: "one evaluation = one seeded history; probe ops open a persisted version cache-less and count Load calls of LoadMast/Clone/Get/Insert/Delete against the height bounds (one probed call in six has one read served truncated without an error: it may fail, but not exceed its bound); non-trivial = at least one probe judged; distinct = hash of (config, op sequence)"},
 }
 
 func envInt(k string, def int) int {
